@@ -2,6 +2,7 @@ package serializableorderedmap
 
 import (
 	"context"
+	"reflect"
 
 	"github.com/iotaledger/hive.go/ds/orderedmap"
 	"github.com/iotaledger/hive.go/ierrors"
@@ -79,6 +80,11 @@ func (o *SerializableOrderedMap[K, V]) Decode(api *serix.API, b []byte) (bytesRe
 			return 0, err
 		}
 		bytesRead += bytesReadValue
+
+		// a key of interface type can decode to an implementation that is not comparable (the input selects it)
+		if !reflect.ValueOf(&key).Elem().Comparable() {
+			return 0, ierrors.Errorf("decoded key of type %T is not comparable and can't be used as a map key", key)
+		}
 
 		o.Set(key, value)
 	}
